@@ -22,13 +22,13 @@ const (
 
 // Obl is one rule instance decided on the current tree.
 type Obl struct {
-	Rule   string   `json:"rule"`            // e.g. "C05.R1"
-	Func   string   `json:"func"`            // stable function name
-	Desc   string   `json:"construct"`       // position-free construct descriptor
-	Pos    string   `json:"pos"`             // file:line at the time of the run (informational)
-	Status string   `json:"verdict"`         // ok | violation | known | abstain
+	Rule   string   `json:"rule"`      // e.g. "C05.R1"
+	Func   string   `json:"func"`      // stable function name
+	Desc   string   `json:"construct"` // position-free construct descriptor
+	Pos    string   `json:"pos"`       // file:line at the time of the run (informational)
+	Status string   `json:"verdict"`   // ok | violation | known | abstain
 	Reason string   `json:"reason,omitempty"`
-	Path   []string `json:"path,omitempty"`  // for path rules: entry -> offending exit
+	Path   []string `json:"path,omitempty"` // for path rules: entry -> offending exit
 	status Status
 }
 
@@ -62,7 +62,7 @@ func (r *Report) add(st Status, rule, fn, desc, pos, reason string, path []strin
 	return o
 }
 
-func (r *Report) Ok(rule, fn, desc, pos string) { r.add(OK, rule, fn, desc, pos, "", nil) }
+func (r *Report) Ok(rule, fn, desc, pos string)         { r.add(OK, rule, fn, desc, pos, "", nil) }
 func (r *Report) OkWhy(rule, fn, desc, pos, why string) { r.add(OK, rule, fn, desc, pos, why, nil) }
 func (r *Report) Fail(rule, fn, desc, pos, reason string, path ...string) {
 	r.add(FAIL, rule, fn, desc, pos, reason, path)
@@ -98,7 +98,9 @@ func (r *Report) Count(rule string) int {
 	return n
 }
 
-func (r *Report) Note(format string, args ...any) { r.Notes = append(r.Notes, fmt.Sprintf(format, args...)) }
+func (r *Report) Note(format string, args ...any) {
+	r.Notes = append(r.Notes, fmt.Sprintf(format, args...))
+}
 
 // ---- known findings ----
 
